@@ -1,0 +1,29 @@
+//go:build verif
+
+package dag
+
+// VerifIdle - verification hook (build tag verif).
+// When set, it is called on the scheduler goroutine of Run every time the scheduler finds no vertex to launch,
+// with the number of vertices in each run status.
+var VerifIdle func(graph string, pending, inProgress, skip, done int)
+
+func verifIdle(g *Graph) {
+	fn := VerifIdle
+	if fn == nil {
+		return
+	}
+	var pending, inProgress, skip, done int
+	for _, v := range g.Vertices {
+		switch v.status {
+		case runPending:
+			pending++
+		case runInProgress:
+			inProgress++
+		case runSkip:
+			skip++
+		case runDone:
+			done++
+		}
+	}
+	fn(g.Name, pending, inProgress, skip, done)
+}
